@@ -69,6 +69,10 @@ def generator_adts(crate):
     return out
 
 
+import re as _re
+ADDRESS_FNS = _re.compile(r"::(align_offset|addr|expose_provenance|expose_addr|is_aligned|is_aligned_to|as_ptr_range)$|core::ptr::(addr_eq|eq|from_exposed_addr)")
+
+
 def op_roots(crate, adt_paths):
     """all methods of all impls whose self type is a generator ADT"""
     roots = []
@@ -161,6 +165,21 @@ def run(chk, tier):
                     nstat += 1
                     chk.ob("R3", "%s[%s]|generator operation %s touches static %s" % (cname, config, k, sname), False,
                            "static access reachable from a generator operation", where=sp[0])
+            # R5: nothing a generator operation computes may depend on where a value lives: no pointer-to-integer cast and none of
+            # the address-inspecting library functions in any reachable body (rand_core's own bodies excepted: its byte views
+            # cast pointers between pointee types only, which is not a pointer-to-integer cast)
+            addr = []
+            for k in seen:
+                bb = crate.bodies[k]
+                for _, s_ in sq.iter_stmts(bb):
+                    if s_[0] == "a" and s_[2][0] == "cast" and ("PointerExpose" in s_[2][1] or "PointerWithExposed" in s_[2][1]):
+                        addr.append("%s cast at %s" % (s_[2][1], s_[3][0] if len(s_) > 3 and s_[3] else bb["span"][0]))
+            for caller, c, sp in leaves:
+                d_ = c.get("rdef") or c.get("def") or ""
+                if ADDRESS_FNS.search(d_):
+                    addr.append("%s called at %s" % (d_, sp[0]))
+            chk.ob("R5", "%s[%s]|no generator operation depends on an address (pointer-to-integer casts, align_offset, addr, ...)" % (cname, config),
+                   not addr, "address-dependent: %s" % addr[:4], nontrivial=bool(addr))
             unknown = {}
             for caller, c, sp in leaves:
                 if "indirect" in c:
